@@ -72,3 +72,79 @@ def check_param_halves(ctx, db, rep, rule):
         if f.relfile.startswith("orc/") or f.relfile.startswith("tools/"):
             m2 += check_or_halves(f, rep, rule, where(f), "")
     return n, m2
+
+
+CONST_PROBES = (-1, -2, -32768, 1, 255, 65535, 0x7fffffff, 0x80000000)
+
+
+def check_constant_spelling(ctx, db, rep, rule):
+    """c_get_name_int spells a constant operand into the generated C.  For every sprintf it can reach with a constant (facts
+    say vartype == ORC_VAR_TYPE_CONST) and every probe value its guards admit, the text it would write must, as a C
+    expression combined with an `int`, evaluate to that value -- decided by the C front end on an instantiated unit
+    (`enum { W = ((long long)(0 + (TEXT)) == VALUE) }`), not by running the generator."""
+    from flow import Facts
+    from exprval import evaluate, variables, NotPure
+    from facts import access_path, unparse
+    from rules_common import where
+    f = db.func("c_get_name_int", "orcprogram-c")
+    CONST = db.enum("ORC_VAR_TYPE_CONST")
+    fc = Facts(f)
+    cases = []
+    for c in f.calls("sprintf"):
+        conds = fc.conds(c)
+        isconst = False
+        for x in conds:
+            if x[0] == "switch":
+                continue
+            e = strip_casts(x[0])
+            if e.k == "BinaryOperator" and e.op == "==" and x[1] is True and strip_casts(e.c[1]).v == CONST and (access_path(e.c[0]) or "").endswith(".vartype"):
+                isconst = True
+        if not isconst:
+            continue
+        a = c.args()
+        fmt = strip_casts(a[1])
+        if fmt is None or fmt.k != "StringLiteral":
+            raise AnalysisBroken("c_get_name_int: constant branch uses a non-literal format")
+        fmt = fmt.get("str", "")
+        vpaths = set()
+        for x in conds:
+            if x[0] != "switch":
+                vpaths |= {v for v in variables(x[0]) if v.endswith(".value.i")}
+        for arg in a[2:]:
+            vpaths |= {v for v in variables(arg) if v.endswith(".value.i")}
+        if len(vpaths) > 1:
+            raise AnalysisBroken("c_get_name_int: several value paths %s" % vpaths)
+        VP = list(vpaths)[0] if vpaths else None
+        for t in CONST_PROBES:
+            env = {VP: t} if VP else {}
+            ok = True
+            for x in conds:
+                if x[0] == "switch" or not (variables(x[0]) & set(env)):
+                    continue
+                try:
+                    if bool(evaluate(x[0], env, width=64)) != bool(x[1]):
+                        ok = False
+                except NotPure:
+                    pass
+            if not ok:
+                continue
+            try:
+                vals = tuple(evaluate(arg, env, width=64) for arg in a[2:])
+                text = fmt % vals if vals else fmt
+            except (NotPure, TypeError, ValueError) as e:
+                raise AnalysisBroken("c_get_name_int: cannot instantiate %r with %s: %s" % (fmt, t, e))
+            cases.append((c, fmt, t, text))
+    if len(cases) < 4:
+        raise AnalysisBroken("c_get_name_int: only %d (format, value) cases for constant operands" % len(cases))
+    unit = ["/* instantiated constant spellings of c_get_name_int */"]
+    for k, (c, fmt, t, text) in enumerate(cases):
+        unit.append("enum { W_%d = ((long long)(0 + (%s)) == (%dLL)) };" % (k, text, t))
+    sdb = ctx.snippet_db("constspell", "\n".join(unit) + "\n")
+    enums = sdb.tu("constspell").enums
+    for k, (c, fmt, t, text) in enumerate(cases):
+        got = enums.get("W_%d" % k)
+        rep.check(got == 1, rule, where(f), "const:%r@%d" % (fmt, t),
+                  "constant %d is spelled `%s`, which evaluates to it in int arithmetic" % (t, text),
+                  "c_get_name_int spells the constant %d as `%s`; combined with an int (`i + %s`) that is not %d in C (an unsigned literal makes the "
+                  "index arithmetic unsigned: ptr[i + 0xffffffff] instead of ptr[i - 1])" % (t, text, text, t), line=c.line)
+    return len(cases)
